@@ -68,6 +68,11 @@ fn c18_infallible_conversion_total() {
     assert!(back == Ok(p));
 }
 
+// Tried and withdrawn (measured): from_public_key_protobuf over |k| <= 100 (goto-instrument killed at 62 GB: SHA-256
+// cannot be stubbed — Kani cannot resolve `<Code as MultihashDigest<64>>::digest`), to_bytes/from_bytes round trip
+// (CBMC out of memory) and from_bytes vs reference on <= 12 raw bytes (no result in 15 min).  Those clauses of C18 are
+// listed as not decided.
+
 #[kani::proof]
 fn c18_canary() {
     let x: u8 = kani::any();
